@@ -1229,15 +1229,17 @@ func (r *Runtime) typedArrayProto_subarray(call FunctionCall) Value {
 
 func (r *Runtime) typedArrayProto_toLocaleString(call FunctionCall) Value {
 	if ta, ok := r.toObject(call.This).self.(*typedArrayObject); ok {
+		ta.viewedArrayBuf.ensureNotDetached(true)
 		length := ta.length
 		var buf StringBuilder
 		for i := 0; i < length; i++ {
-			ta.viewedArrayBuf.ensureNotDetached(true)
 			if i > 0 {
 				buf.WriteRune(',')
 			}
-			item := ta.typedArray.get(ta.offset + i)
-			r.writeItemLocaleString(item, &buf)
+			// an element's toLocaleString may detach the buffer: the remaining elements are then undefined
+			if ta.isValidIntegerIndex(i) {
+				r.writeItemLocaleString(ta.typedArray.get(ta.offset+i), &buf)
+			}
 		}
 		return buf.String()
 	}
